@@ -24,7 +24,7 @@ ID = "C16"
 LEVEL = "fault_enumeration"
 RULE = ("systematic product {child behaviour} x {exit path} x {moment} x {entry point} with fixed parameters, plus seeded scenarios with "
         "random latencies/instants/second cancellation; non-trivial = the child misbehaved or the exit was not the plain normal path")
-PROBES = ["exit_with_more_unread_output_than_reader_buffers", "child_state_checked_at_instant_of_exit", "client_object_reused", "exit_under_cancel_scope", "exit_under_task_cancel", "exit_under_fail_after", "exit_by_exception", "sigterm_ignored_then_killed",
+PROBES = ["requests_parked_behind_full_outgoing_queue_when_child_died", "exit_with_more_unread_output_than_reader_buffers", "child_state_checked_at_instant_of_exit", "client_object_reused", "exit_under_cancel_scope", "exit_under_task_cancel", "exit_under_fail_after", "exit_by_exception", "sigterm_ignored_then_killed",
           "child_already_dead_at_exit", "cancel_landed_inside_aexit", "request_pending_when_child_died", "spawn_failed", "writer_blocked_at_exit",
           "flood_at_exit"]
 TIERS = {"quick": {"runs": 20000, "wall": 45.0}, "thorough": {"runs": 2000000, "wall": 560.0}}
@@ -37,7 +37,7 @@ STUB = ["child process, pipes and signals: FakeProcess"]
 SHRINK_LISTS = ["body"]
 
 CHILD_KINDS = ["well_behaved", "exits_early", "exits_after_k", "ignores_sigterm", "never_reads", "floods", "closes_stdout", "closes_stdin",
-               "slow_start", "unstartable", "slow_to_die", "floods_then_exits"]
+               "slow_start", "unstartable", "slow_to_die", "floods_then_exits", "never_reads_then_exits"]
 EXIT_PATHS = ["normal", "exception", "cancel_scope", "fail_after", "task_cancel"]
 MOMENTS = ["before_first", "in_flight", "after_response", "during_aexit"]
 ENTRIES = ["stdio_client", "StdioClient", "StdioTransport", "stdio_client_with_initialize"]
@@ -60,6 +60,12 @@ def _child_cfg(kind, rng=None):
     if kind == "floods":
         c["flood_every"] = r([1, 2, 10])
         c["flood_line_bytes"] = r([8192, 90, 90, 30000])
+    if kind == "never_reads_then_exits":
+        # never takes anything from its stdin, so the client's outgoing queue backs up; then it dies
+        c["read_mode"] = "never"
+        c["capacity"] = r([64, 4096])
+        c["exit_at"] = r([60, 20, 400])
+        c["backlog"] = r([130, 105, 160])
     if kind == "floods_then_exits":
         # writes a burst larger than the client's 100-slot incoming queue, then exits by itself
         c["burst"] = r([400, 101, 150, 99])
@@ -123,6 +129,9 @@ def generate(rng: random.Random, tier: str) -> dict:
     if moment == "during_aexit" and path in ("normal", "exception"):
         path = rng.choice(["cancel_scope", "task_cancel", "fail_after"])
     body = _body_for(moment, rng)
+    if kind == "never_reads_then_exits":
+        # more concurrent requests than the outgoing queue holds: the surplus is parked in write_stream.send()
+        body = [{"op": "burst_requests", "n": 0, "timeout": rng.choice([0.5, 1.0])}] + body
     if rng.random() < 0.3:
         body = body + [{"op": rng.choice(["request", "notify", "sleep"]), "timeout": 0.5, "t": rng.choice([0, 3, 40])}]
     sc = None
@@ -280,6 +289,11 @@ def execute(scn: dict) -> dict:
                             tg.start_soon(one_request, r, w, op, name="detached-request")
                         else:
                             await one_request(r, w, op)
+                    elif op["op"] == "burst_requests":
+                        for _q in range(ch.get("backlog", 130)):
+                            tg.start_soon(one_request, r, w, op, name="detached-request")
+                        sim.fault("outgoing_queue_backed_up_then_child_dies")
+                        await anyio.sleep(ticks(ch.get("exit_at", 60)) + op["timeout"] + 1.0)
                     elif op["op"] == "sleep":
                         await anyio.sleep(ticks(op["t"]))
                     elif op["op"] == "notify":
@@ -470,6 +484,11 @@ def execute(scn: dict) -> dict:
                 V("fabricated-result", kind, f"request returned {rec['outcome'][1]!r:.120} which the child never wrote")
         if rec["outcome"] and rec["outcome"][0] == "raise" and rec.get("child_alive_at_end") is False:
             probe("request_pending_when_child_died")
+    never_ended = [rec for rec in st["requests"] if rec["outcome"] is None]
+    if never_ended and child is not None and child.t_exit is not None and path in ("normal", "exception") and not st.get("t_trigger"):
+        V("request-never-ended", kind, f"{len(never_ended)} of {len(st['requests'])} requests pending when the child died never ended (neither timeout nor error)")
+    if kind == "never_reads_then_exits" and len(st["requests"]) > 100:
+        probe("requests_parked_behind_full_outgoing_queue_when_child_died")
     if st.get("tasks_left"):
         V("task-left", tag, f"tasks still alive after the context was left: {st['tasks_left']}")
     out["nontrivial"] = kind != "well_behaved" or path != "normal"
